@@ -44,6 +44,7 @@ def shards(tier):
         for shape in ('str', 'tuple', 'list'):
             out.append(('live', {'ver': ver, 'req': 'sub', 'shape': shape, 'retries': 3 if T else 2}))
         out.append(('live', {'ver': ver, 'req': 'unsub', 'shape': 'list', 'retries': 2}))
+        out.append(('live', {'ver': ver, 'req': 'pubrel', 'retries': 2, 'then_inbound': True}))
         out.append(('live', {'ver': ver, 'req': 'ping', 'keepalive': 5}))
     for t in sorted(codec.BAD_PAYLOADS):
         out.append(('payloadtype', {'type': t}))
